@@ -1201,7 +1201,8 @@ func (e *Enc) specSignature(sf *SpecFn) (*specSig, error) {
 	return e.specSigs[sf.Name], nil
 }
 
-// specDefs renders all spec functions used so far as one define-funs-rec block.
+// specDefs renders all spec functions used so far: non-recursive ones as plain
+// define-fun macros (in dependency order), recursive ones in one define-funs-rec block.
 func (e *Enc) specDefs() string {
 	if len(e.specSigs) == 0 {
 		return ""
@@ -1211,12 +1212,34 @@ func (e *Enc) specDefs() string {
 		names = append(names, n)
 	}
 	sort.Strings(names)
-	var decls, bodies []string
-	var ufs []string
-	for _, n := range names {
+	// reachability over the call graph
+	reach := map[string]map[string]bool{}
+	var dfs func(from, n string)
+	dfs = func(from, n string) {
 		s := e.specSigs[n]
-		var ps []string
-		var sorts []string
+		if s == nil {
+			return
+		}
+		for c := range s.calls {
+			if !reach[from][c] {
+				reach[from][c] = true
+				dfs(from, c)
+			}
+		}
+	}
+	for _, n := range names {
+		reach[n] = map[string]bool{}
+		dfs(n, n)
+	}
+	recursive := func(n string) bool {
+		if reach[n][n] || !e.specSigs[n].fn.Macro {
+			return true // everything not explicitly marked "macro" goes into the define-funs-rec block
+		}
+		// depends on a recursive function? then it must come after the rec block: handled by ordering
+		return false
+	}
+	sig := func(s *specSig) (string, []string) {
+		var ps, sorts []string
 		for _, p := range s.params {
 			ps = append(ps, fmt.Sprintf("(%s %s)", p.T, p.Sort))
 			sorts = append(sorts, p.Sort)
@@ -1224,19 +1247,78 @@ func (e *Enc) specDefs() string {
 		for _, r := range s.reads {
 			ps = append(ps, fmt.Sprintf("(h!%s %s)", r, e.W.comps[r].Sort))
 		}
+		return strings.Join(ps, " "), sorts
+	}
+	var out []string
+	for _, n := range names {
+		s := e.specSigs[n]
 		if s.fn.Body == nil {
-			ufs = append(ufs, fmt.Sprintf("(declare-fun %s (%s) %s)", s.smt, strings.Join(sorts, " "), s.retS))
+			_, sorts := sig(s)
+			out = append(out, fmt.Sprintf("(declare-fun %s (%s) %s)", s.smt, strings.Join(sorts, " "), s.retS))
+		}
+	}
+	// emit in dependency order; a function is ready when all its callees are emitted
+	emitted := map[string]bool{}
+	for _, n := range names {
+		if e.specSigs[n].fn.Body == nil {
+			emitted[n] = true
+		}
+	}
+	recEmitted := false
+	for progress := true; progress; {
+		progress = false
+		for _, n := range names {
+			s := e.specSigs[n]
+			if emitted[n] || recursive(n) {
+				continue
+			}
+			ready := true
+			for c := range s.calls {
+				if e.specSigs[c] != nil && !emitted[c] {
+					ready = false
+				}
+			}
+			if !ready {
+				continue
+			}
+			ps, _ := sig(s)
+			out = append(out, fmt.Sprintf("(define-fun %s (%s) %s %s)", s.smt, ps, s.retS, s.body))
+			emitted[n] = true
+			progress = true
+		}
+		if !progress && !recEmitted {
+			// emit the recursive block once all non-recursive functions it may call are out
+			var decls, bodies []string
+			for _, n := range names {
+				s := e.specSigs[n]
+				if emitted[n] || !recursive(n) {
+					continue
+				}
+				ps, _ := sig(s)
+				decls = append(decls, fmt.Sprintf("(%s (%s) %s)", s.smt, ps, s.retS))
+				bodies = append(bodies, s.body)
+				emitted[n] = true
+			}
+			recEmitted = true
+			if len(decls) > 0 {
+				out = append(out, "(define-funs-rec ("+strings.Join(decls, "\n  ")+")\n ("+strings.Join(bodies, "\n  ")+"))")
+				progress = true
+			}
+		}
+	}
+	// anything left (non-recursive functions calling into a cycle that calls them back cannot exist); emit leftovers recursively
+	var decls, bodies []string
+	for _, n := range names {
+		s := e.specSigs[n]
+		if emitted[n] {
 			continue
 		}
-		decls = append(decls, fmt.Sprintf("(%s (%s) %s)", s.smt, strings.Join(ps, " "), s.retS))
+		ps, _ := sig(s)
+		decls = append(decls, fmt.Sprintf("(%s (%s) %s)", s.smt, ps, s.retS))
 		bodies = append(bodies, s.body)
 	}
-	out := strings.Join(ufs, "\n")
 	if len(decls) > 0 {
-		if out != "" {
-			out += "\n"
-		}
-		out += "(define-funs-rec (" + strings.Join(decls, "\n  ") + ")\n (" + strings.Join(bodies, "\n  ") + "))"
+		out = append(out, "(define-funs-rec ("+strings.Join(decls, "\n  ")+")\n ("+strings.Join(bodies, "\n  ")+"))")
 	}
-	return out
+	return strings.Join(out, "\n")
 }
